@@ -236,7 +236,7 @@ dec!(dec_0_0, 0, 0);
 decm!(decm_0_0, 0, 0);
 //@ props=C01,C05,C20 tier=quick unwind=11
 dec!(dec_0_1, 0, 1);
-//@ props=C02 tier=thorough unwind=11
+//@ props=C02 tier=quick unwind=11
 decm!(decm_0_1, 0, 1);
 //@ props=C01,C05,C20 tier=quick unwind=11
 dec!(dec_0_2, 0, 2);
@@ -256,7 +256,7 @@ dec!(dec_1_0, 1, 0);
 decm!(decm_1_0, 1, 0);
 //@ props=C01,C05,C20 tier=quick unwind=10 stubs=utf8
 dec!(dec_1_1, 1, 1);
-//@ props=C02 tier=thorough unwind=10 stubs=utf8
+//@ props=C02 tier=quick unwind=10 stubs=utf8
 decm!(decm_1_1, 1, 1);
 //@ props=C01,C05,C20 tier=quick unwind=11 stubs=utf8
 dec!(dec_1_2, 1, 2);
@@ -300,7 +300,7 @@ dec!(dec_2_0, 2, 0);
 decm!(decm_2_0, 2, 0);
 //@ props=C01,C05,C20 tier=quick unwind=11
 dec!(dec_2_1, 2, 1);
-//@ props=C02 tier=thorough unwind=11
+//@ props=C02 tier=quick unwind=11
 decm!(decm_2_1, 2, 1);
 //@ props=C01,C05,C20 tier=quick unwind=11
 dec!(dec_2_2, 2, 2);
@@ -320,7 +320,7 @@ dec!(dec_3_0, 3, 0);
 decm!(decm_3_0, 3, 0);
 //@ props=C01,C05,C20 tier=quick unwind=13
 dec!(dec_3_3, 3, 3);
-//@ props=C02 tier=thorough unwind=13
+//@ props=C02 tier=quick unwind=13
 decm!(decm_3_3, 3, 3);
 //@ props=C01,C05,C20 tier=quick unwind=13
 dec!(dec_3_4, 3, 4);
@@ -340,7 +340,7 @@ dec!(dec_4_0, 4, 0);
 decm!(decm_4_0, 4, 0);
 //@ props=C01,C05,C20 tier=quick unwind=13
 dec!(dec_4_3, 4, 3);
-//@ props=C02 tier=thorough unwind=13
+//@ props=C02 tier=quick unwind=13
 decm!(decm_4_3, 4, 3);
 //@ props=C01,C05,C20 tier=quick unwind=13
 dec!(dec_4_4, 4, 4);
@@ -360,7 +360,7 @@ dec!(dec_5_0, 5, 0);
 decm!(decm_5_0, 5, 0);
 //@ props=C01,C05,C20 tier=quick unwind=17
 dec!(dec_5_7, 5, 7);
-//@ props=C02 tier=thorough unwind=17
+//@ props=C02 tier=quick unwind=17
 decm!(decm_5_7, 5, 7);
 //@ props=C01,C05,C20 tier=quick unwind=17
 dec!(dec_5_8, 5, 8);
@@ -380,7 +380,7 @@ dec!(dec_6_0, 6, 0);
 decm!(decm_6_0, 6, 0);
 //@ props=C01,C05,C20 tier=quick unwind=11
 dec!(dec_6_1, 6, 1);
-//@ props=C02 tier=thorough unwind=11
+//@ props=C02 tier=quick unwind=11
 decm!(decm_6_1, 6, 1);
 //@ props=C01,C05,C20 tier=quick unwind=11
 dec!(dec_6_2, 6, 2);
@@ -396,7 +396,7 @@ decm!(decm_6_3, 6, 3);
 renc!(renc_6_3, 6, 3);
 //@ props=C01,C05,C20 tier=quick unwind=9
 dec!(dec_7_0, 7, 0);
-//@ props=C02 tier=thorough unwind=9
+//@ props=C02 tier=quick unwind=9
 decm!(decm_7_0, 7, 0);
 //@ props=C01,C05,C20 tier=thorough unwind=10
 dec!(dec_7_1, 7, 1);
@@ -418,7 +418,7 @@ decm!(decm_7_7, 7, 7);
 renc!(renc_7_7, 7, 7);
 //@ props=C01,C05,C20 tier=quick unwind=9 stubs=utf8
 dec!(dec_8_0, 8, 0);
-//@ props=C02 tier=thorough unwind=9 stubs=utf8
+//@ props=C02 tier=quick unwind=9 stubs=utf8
 decm!(decm_8_0, 8, 0);
 //@ props=C01,C05,C20 tier=thorough unwind=10 stubs=utf8
 dec!(dec_8_1, 8, 1);
@@ -462,7 +462,7 @@ dec!(dec_9_0, 9, 0);
 decm!(decm_9_0, 9, 0);
 //@ props=C01,C05,C20 tier=quick unwind=11
 dec!(dec_9_1, 9, 1);
-//@ props=C02 tier=thorough unwind=11
+//@ props=C02 tier=quick unwind=11
 decm!(decm_9_1, 9, 1);
 //@ props=C01,C05,C20 tier=quick unwind=11
 dec!(dec_9_2, 9, 2);
@@ -482,7 +482,7 @@ dec!(dec_10_0, 10, 0);
 decm!(decm_10_0, 10, 0);
 //@ props=C01,C05,C20 tier=quick unwind=11
 dec!(dec_10_1, 10, 1);
-//@ props=C02 tier=thorough unwind=11
+//@ props=C02 tier=quick unwind=11
 decm!(decm_10_1, 10, 1);
 //@ props=C01,C05,C20 tier=quick unwind=11
 dec!(dec_10_2, 10, 2);
@@ -498,7 +498,7 @@ decm!(decm_10_3, 10, 3);
 renc!(renc_10_3, 10, 3);
 //@ props=C01,C05,C20 tier=quick unwind=9
 dec!(dec_11_0, 11, 0);
-//@ props=C02 tier=thorough unwind=9
+//@ props=C02 tier=quick unwind=9
 decm!(decm_11_0, 11, 0);
 //@ props=C01,C05,C20 tier=thorough unwind=10
 dec!(dec_11_1, 11, 1);
@@ -524,7 +524,7 @@ dec!(dec_12_0, 12, 0);
 decm!(decm_12_0, 12, 0);
 //@ props=C01,C05,C20 tier=quick unwind=11 stubs=utf8
 dec!(dec_12_2, 12, 2);
-//@ props=C02 tier=thorough unwind=11 stubs=utf8
+//@ props=C02 tier=quick unwind=11 stubs=utf8
 decm!(decm_12_2, 12, 2);
 //@ props=C01,C05,C20 tier=quick unwind=12 stubs=utf8
 dec!(dec_12_3, 12, 3);
@@ -556,7 +556,7 @@ dec!(dec_13_0, 13, 0);
 decm!(decm_13_0, 13, 0);
 //@ props=C01,C05,C20 tier=quick unwind=25
 dec!(dec_13_15, 13, 15);
-//@ props=C02 tier=thorough unwind=25
+//@ props=C02 tier=quick unwind=25
 decm!(decm_13_15, 13, 15);
 //@ props=C01,C05,C20 tier=quick unwind=25
 dec!(dec_13_16, 13, 16);
@@ -576,7 +576,7 @@ dec!(dec_14_0, 14, 0);
 decm!(decm_14_0, 14, 0);
 //@ props=C01,C05,C20 tier=quick unwind=11
 dec!(dec_14_1, 14, 1);
-//@ props=C02 tier=thorough unwind=11
+//@ props=C02 tier=quick unwind=11
 decm!(decm_14_1, 14, 1);
 //@ props=C01,C05,C20 tier=quick unwind=11
 dec!(dec_14_2, 14, 2);
@@ -596,7 +596,7 @@ dec!(dec_15_0, 15, 0);
 decm!(decm_15_0, 15, 0);
 //@ props=C01,C05,C20 tier=quick unwind=13
 dec!(dec_15_3, 15, 3);
-//@ props=C02 tier=thorough unwind=13
+//@ props=C02 tier=quick unwind=13
 decm!(decm_15_3, 15, 3);
 //@ props=C01,C05,C20 tier=quick unwind=13
 dec!(dec_15_4, 15, 4);
@@ -616,7 +616,7 @@ dec!(dec_16_0, 16, 0);
 decm!(decm_16_0, 16, 0);
 //@ props=C01,C05,C20 tier=quick unwind=13
 dec!(dec_16_3, 16, 3);
-//@ props=C02 tier=thorough unwind=13
+//@ props=C02 tier=quick unwind=13
 decm!(decm_16_3, 16, 3);
 //@ props=C01,C05,C20 tier=quick unwind=13
 dec!(dec_16_4, 16, 4);
@@ -636,7 +636,7 @@ dec!(dec_17_0, 17, 0);
 decm!(decm_17_0, 17, 0);
 //@ props=C01,C05,C20 tier=quick unwind=13
 dec!(dec_17_3, 17, 3);
-//@ props=C02 tier=thorough unwind=13
+//@ props=C02 tier=quick unwind=13
 decm!(decm_17_3, 17, 3);
 //@ props=C01,C05,C20 tier=quick unwind=13
 dec!(dec_17_4, 17, 4);
@@ -656,7 +656,7 @@ dec!(dec_18_0, 18, 0);
 decm!(decm_18_0, 18, 0);
 //@ props=C01,C05,C20 tier=quick unwind=13
 dec!(dec_18_3, 18, 3);
-//@ props=C02 tier=thorough unwind=13
+//@ props=C02 tier=quick unwind=13
 decm!(decm_18_3, 18, 3);
 //@ props=C01,C05,C20 tier=quick unwind=13
 dec!(dec_18_4, 18, 4);
@@ -676,7 +676,7 @@ dec!(dec_19_0, 19, 0);
 decm!(decm_19_0, 19, 0);
 //@ props=C01,C05,C20 tier=quick unwind=13
 dec!(dec_19_3, 19, 3);
-//@ props=C02 tier=thorough unwind=13
+//@ props=C02 tier=quick unwind=13
 decm!(decm_19_3, 19, 3);
 //@ props=C01,C05,C20 tier=quick unwind=13
 dec!(dec_19_4, 19, 4);
@@ -700,7 +700,7 @@ dec!(dec_20_2, 20, 2);
 decm!(decm_20_2, 20, 2);
 //@ props=C01,C05,C20 tier=quick unwind=9 stubs=utf8
 dec!(dec_21_0, 21, 0);
-//@ props=C02 tier=thorough unwind=9 stubs=utf8
+//@ props=C02 tier=quick unwind=9 stubs=utf8
 decm!(decm_21_0, 21, 0);
 //@ props=C01,C05,C20 tier=thorough unwind=10 stubs=utf8
 dec!(dec_21_1, 21, 1);
@@ -740,7 +740,7 @@ decm!(decm_21_6, 21, 6);
 renc!(renc_21_6, 21, 6);
 //@ props=C01,C05,C20 tier=quick unwind=9 stubs=utf8
 dec!(dec_22_0, 22, 0);
-//@ props=C02 tier=thorough unwind=9 stubs=utf8
+//@ props=C02 tier=quick unwind=9 stubs=utf8
 decm!(decm_22_0, 22, 0);
 //@ props=C01,C05,C20 tier=thorough unwind=10 stubs=utf8
 dec!(dec_22_1, 22, 1);
@@ -780,7 +780,7 @@ decm!(decm_22_6, 22, 6);
 renc!(renc_22_6, 22, 6);
 //@ props=C01,C05,C20 tier=quick unwind=9 stubs=utf8
 dec!(dec_23_0, 23, 0);
-//@ props=C02 tier=thorough unwind=9 stubs=utf8
+//@ props=C02 tier=quick unwind=9 stubs=utf8
 decm!(decm_23_0, 23, 0);
 //@ props=C01,C05,C20 tier=thorough unwind=10 stubs=utf8
 dec!(dec_23_1, 23, 1);
@@ -824,7 +824,7 @@ dec!(dec_24_0, 24, 0);
 decm!(decm_24_0, 24, 0);
 //@ props=C01,C05,C20 tier=quick unwind=13
 dec!(dec_24_3, 24, 3);
-//@ props=C02 tier=thorough unwind=13
+//@ props=C02 tier=quick unwind=13
 decm!(decm_24_3, 24, 3);
 //@ props=C01,C05,C20 tier=quick unwind=13
 dec!(dec_24_4, 24, 4);
@@ -844,7 +844,7 @@ dec!(dec_25_0, 25, 0);
 decm!(decm_25_0, 25, 0);
 //@ props=C01,C05,C20 tier=quick unwind=13
 dec!(dec_25_3, 25, 3);
-//@ props=C02 tier=thorough unwind=13
+//@ props=C02 tier=quick unwind=13
 decm!(decm_25_3, 25, 3);
 //@ props=C01,C05,C20 tier=quick unwind=13
 dec!(dec_25_4, 25, 4);
@@ -860,7 +860,7 @@ decm!(decm_25_5, 25, 5);
 renc!(renc_25_5, 25, 5);
 //@ props=C01,C05,C20 tier=quick unwind=9
 dec!(dec_26_0, 26, 0);
-//@ props=C02 tier=thorough unwind=9
+//@ props=C02 tier=quick unwind=9
 decm!(decm_26_0, 26, 0);
 //@ props=C01,C05,C20 tier=thorough unwind=10
 dec!(dec_26_1, 26, 1);
@@ -882,7 +882,7 @@ decm!(decm_26_7, 26, 7);
 renc!(renc_26_7, 26, 7);
 //@ props=C01,C05,C20 tier=quick unwind=9
 dec!(dec_27_0, 27, 0);
-//@ props=C02 tier=thorough unwind=9
+//@ props=C02 tier=quick unwind=9
 decm!(decm_27_0, 27, 0);
 //@ props=C01,C05,C20 tier=thorough unwind=10
 dec!(dec_27_1, 27, 1);
@@ -904,7 +904,7 @@ decm!(decm_27_7, 27, 7);
 renc!(renc_27_7, 27, 7);
 //@ props=C01,C05,C20 tier=quick unwind=9
 dec!(dec_28_0, 28, 0);
-//@ props=C02 tier=thorough unwind=9
+//@ props=C02 tier=quick unwind=9
 decm!(decm_28_0, 28, 0);
 //@ props=C01,C05,C20 tier=thorough unwind=10
 dec!(dec_28_1, 28, 1);
@@ -930,7 +930,7 @@ dec!(dec_29_0, 29, 0);
 decm!(decm_29_0, 29, 0);
 //@ props=C01,C05,C20 tier=quick unwind=11
 dec!(dec_29_1, 29, 1);
-//@ props=C02 tier=thorough unwind=11
+//@ props=C02 tier=quick unwind=11
 decm!(decm_29_1, 29, 1);
 //@ props=C01,C05,C20 tier=quick unwind=11
 dec!(dec_29_2, 29, 2);
@@ -946,7 +946,7 @@ decm!(decm_29_3, 29, 3);
 renc!(renc_29_3, 29, 3);
 //@ props=C01,C05,C20 tier=quick unwind=9
 dec!(dec_30_0, 30, 0);
-//@ props=C02 tier=thorough unwind=9
+//@ props=C02 tier=quick unwind=9
 decm!(decm_30_0, 30, 0);
 //@ props=C01,C05,C20 tier=thorough unwind=10
 dec!(dec_30_1, 30, 1);
@@ -968,7 +968,7 @@ decm!(decm_30_7, 30, 7);
 renc!(renc_30_7, 30, 7);
 //@ props=C01,C05,C20 tier=quick unwind=9
 dec!(dec_31_0, 31, 0);
-//@ props=C02 tier=thorough unwind=9
+//@ props=C02 tier=quick unwind=9
 decm!(decm_31_0, 31, 0);
 //@ props=C01,C05,C20 tier=thorough unwind=10
 dec!(dec_31_1, 31, 1);
@@ -994,7 +994,7 @@ dec!(dec_32_0, 32, 0);
 decm!(decm_32_0, 32, 0);
 //@ props=C01,C05,C20 tier=quick unwind=11
 dec!(dec_32_1, 32, 1);
-//@ props=C02 tier=thorough unwind=11
+//@ props=C02 tier=quick unwind=11
 decm!(decm_32_1, 32, 1);
 //@ props=C01,C05,C20 tier=quick unwind=11
 dec!(dec_32_2, 32, 2);
@@ -1010,7 +1010,7 @@ decm!(decm_32_3, 32, 3);
 renc!(renc_32_3, 32, 3);
 //@ props=C01,C05,C20 tier=quick unwind=9
 dec!(dec_33_0, 33, 0);
-//@ props=C02 tier=thorough unwind=9
+//@ props=C02 tier=quick unwind=9
 decm!(decm_33_0, 33, 0);
 //@ props=C01,C05,C20 tier=thorough unwind=10
 dec!(dec_33_1, 33, 1);
@@ -1036,7 +1036,7 @@ dec!(dec_34_0, 34, 0);
 decm!(decm_34_0, 34, 0);
 //@ props=C01,C05,C20 tier=quick unwind=35
 dec!(dec_34_25, 34, 25);
-//@ props=C02 tier=thorough unwind=35
+//@ props=C02 tier=quick unwind=35
 decm!(decm_34_25, 34, 25);
 //@ props=C01,C05,C20 tier=quick unwind=35
 dec!(dec_34_26, 34, 26);
@@ -1056,7 +1056,7 @@ dec!(dec_35_0, 35, 0);
 decm!(decm_35_0, 35, 0);
 //@ props=C01,C05,C20 tier=quick unwind=19
 dec!(dec_35_9, 35, 9);
-//@ props=C02 tier=thorough unwind=19
+//@ props=C02 tier=quick unwind=19
 decm!(decm_35_9, 35, 9);
 //@ props=C01,C05,C20 tier=quick unwind=19
 dec!(dec_35_10, 35, 10);
@@ -1076,7 +1076,7 @@ dec!(dec_36_0, 36, 0);
 decm!(decm_36_0, 36, 0);
 //@ props=C01,C05,C20 tier=quick unwind=13
 dec!(dec_36_3, 36, 3);
-//@ props=C02 tier=thorough unwind=13
+//@ props=C02 tier=quick unwind=13
 decm!(decm_36_3, 36, 3);
 //@ props=C01,C05,C20 tier=quick unwind=13
 dec!(dec_36_4, 36, 4);
@@ -1092,7 +1092,7 @@ decm!(decm_36_5, 36, 5);
 renc!(renc_36_5, 36, 5);
 //@ props=C01,C05,C20 tier=quick unwind=9
 dec!(dec_37_0, 37, 0);
-//@ props=C02 tier=thorough unwind=9
+//@ props=C02 tier=quick unwind=9
 decm!(decm_37_0, 37, 0);
 //@ props=C01,C05,C20 tier=thorough unwind=10
 dec!(dec_37_1, 37, 1);
@@ -1118,7 +1118,7 @@ dec!(dec_38_0, 38, 0);
 decm!(decm_38_0, 38, 0);
 //@ props=C01,C05,C20 tier=quick unwind=13
 dec!(dec_38_3, 38, 3);
-//@ props=C02 tier=thorough unwind=13
+//@ props=C02 tier=quick unwind=13
 decm!(decm_38_3, 38, 3);
 //@ props=C01,C05,C20 tier=quick unwind=13
 dec!(dec_38_4, 38, 4);
